@@ -37,6 +37,8 @@ def check(run):
     R.rule('C10.gate', 'every normal return of on_response passed the status/Upgrade/Accept-present/Accept-equal '
                        'tests; failures are HandshakeErrors; Ready only in the else-arm with on_response\'s results '
                        'unswapped; nothing is yielded after Rejected', 8)
+    from .common import event_fields as _event_fields
+    _event_fields(R, 'C10.gate', ['Ready', 'Rejected'])      # Ready / Rejected report what they were given
     R.rule('C10.challenge', 'challenge = b64encode(sha1(State.key + GUID).digest()); the request carries the same key', 3)
     R.rule('C10.exact', 'the Accept comparison applies no case- or content-normalising call to either side', 1)
     R.rule('C10.key', 'State.key has one writer, per instance, from b64encode(os.urandom(16)); WebSocket.key reads it', 3)
